@@ -443,13 +443,38 @@ fn user_written_variant_ast_node<TCompilationProfile: CompilationProfile>(
     // Note: this is confusing. We're using the parent context to determine the
     // arguments **to** the client field (below), and the child context (here) for
     // the refetch paths **within** the client field.
+    //
+    // The nested client field's own reader numbers its refetch queries by the order of its own
+    // refetch paths, i.e. of the paths relative to that field and in terms of its own variables.
+    // We must list the parent's queries in that same order. So, we take the paths in the nested
+    // field's own terms, in order, and only then prefix them with the path to the nested field and
+    // substitute its variables. (Substituting first and sorting afterwards gives a different order,
+    // or even fewer paths, whenever the substitution reorders or identifies two of them.)
     let paths_to_refetch_field_in_client_scalar_selectable =
         refetched_paths_for_client_scalar_selectable(
             db,
             nested_client_scalar_selectable,
-            path,
-            client_scalar_selectable_variable_context,
-        );
+            &mut vec![],
+            &isograph_schema::initial_variable_context(
+                &nested_client_scalar_selectable.scalar_selected(),
+            ),
+        )
+        .into_iter()
+        .map(|path_within_nested_field| {
+            let mut linked_fields = path.clone();
+            linked_fields.extend(path_within_nested_field.linked_fields.iter().map(
+                |normalization_key| {
+                    normalization_key.transform_with_parent_variable_context(
+                        client_scalar_selectable_variable_context,
+                    )
+                },
+            ));
+            PathToRefetchField {
+                linked_fields,
+                field_name: path_within_nested_field.field_name,
+            }
+        })
+        .collect::<Vec<_>>();
 
     let nested_refetch_queries = get_nested_refetch_query_text(
         root_refetched_paths,
